@@ -386,4 +386,6 @@ Script == [ ops |-> hist, obs |-> ObsOf(St), ledger |-> Ledger, unbond |-> Unbon
             comm |-> [j \in 1..Len(ValSeq) |-> <<ValSeq[j], Comm[ValSeq[j]]>>] ]
 
 Emit == last # NoOp => PrintT(ToJson(Script))
+(* simulation mode: one script per behaviour, when it is complete *)
+EmitFinal == (last # NoOp /\ (nops = MaxOps \/ panicked)) => PrintT(ToJson(Script))
 =============================================================================
